@@ -134,6 +134,14 @@ class Built:
                 ls[self.gt] = self._syn_value(self.root_order)
             self.inp = SuperReconciliationInput(self.gt, LowestCommonAncestor(self.st), lm, leaf_syntenies=ls, **kw)
 
+    def set_costs_inplace(self, c):
+        """History workload: change the cost table of the SAME input object in place (the package's own tests tune
+        costs this way: ``rec_input.costs[NodeEvent.DUPLICATION] = 3``)."""
+        self.c = dict(c)
+        for k, v in mk_costs(self.c).items():
+            self.inp.costs[k] = v
+        return self.inp
+
     def _syn_value(self, fs):
         """The container in which a synteny is handed to the package: a list (default), a tuple, a string of
         one-letter family names, or (unordered inputs) a set / frozenset - all legal sequences / collections."""
